@@ -4,6 +4,7 @@ import Ruint.Lemmas.Str
 import Ruint.Lemmas.GenRadixBE
 import Ruint.Lemmas.GenRadixLE
 import Ruint.Lemmas.StrTable
+import Ruint.Lemmas.GenStr
 import Mathlib.Tactic.IntervalCases
 
 /-!
@@ -365,5 +366,26 @@ theorem sweep_default_outcome (radix : ℕ) (h2 : 2 ≤ radix) (h64 : radix ≤ 
   unfold fromStrRadix
   have hr : ¬ radix > 64 := by omega
   simp only [hr, if_false, scan, h1, hc, hv]
+
+/-! ## Tie of `from_str_radix` and `FromStr::from_str` to the source (G)
+
+`Ruint.Gen.uint_from_str_radix` / `uint_from_str` are regenerated from `src/string.rs` on every run. A `&str` is the list of its
+code points; the character loop (`chars().filter_map(..)`, evaluated eagerly — DESIGN §0.2), both `match c` tables as `char`
+range / literal / or-patterns, `u64::from(c)`, the `err` latch, `from_base_be(radix, digits)?` with the `From` conversion of its
+error, `err.map_or(Ok(value), Err)`, and `from_str`'s `is_char_boundary(2)`, `split_at(2)` (a byte offset) and the match on the
+string prefixes are the source's. They are the model parsers the theorems above are about — for every string and every radix a
+`u64` can hold. (Error tuples: `(0, c, _, _)` = `InvalidDigit(c)`, `(1, r, _, _)` = `InvalidRadix(r)`, `(2, k, a, b)` =
+`BaseConvertError` with `(k, a, b)` as in `gen_from_base_be_eq`.) -/
+
+theorem gen_from_str_radix_eq (bits radix : ℕ) (hN : nlimbs bits < 2 ^ 64) (hr : radix < 2 ^ 64) (cs : List Char)
+    (hl : cs.length < 2 ^ 64) (f : ℕ) (hf : nlimbs bits + cs.length + 1 < f) :
+    Ruint.GenStr.toRes (Ruint.Gen.uint_from_str_radix f bits (nlimbs bits) (cs.map Char.toNat) radix)
+      = fromStrRadix bits radix cs :=
+  Ruint.GenStr.from_str_radix_eq bits radix hN hr cs hl f hf
+
+theorem gen_from_str_eq (bits : ℕ) (hN : nlimbs bits < 2 ^ 64) (cs : List Char) (hl : cs.length < 2 ^ 64) (f : ℕ)
+    (hf : nlimbs bits + cs.length + 1 < f) :
+    Ruint.GenStr.toRes (Ruint.Gen.uint_from_str f bits (nlimbs bits) (cs.map Char.toNat)) = fromStr bits cs :=
+  Ruint.GenStr.from_str_eq bits hN cs hl f hf
 
 end Ruint.C09
